@@ -162,6 +162,27 @@ void RelayServer::accept_new_clients() {
     }
 }
 
+#ifdef EPHEMERALNET_VERIF
+bool RelayServer::adopt_client(int client_fd) {
+    if (client_fd < 0 || sessions_.count(client_fd) != 0) {
+        return false;
+    }
+    configure_socket(client_fd);
+    auto session = std::make_shared<ClientSession>(client_fd);
+    sessions_.emplace(client_fd, session);
+    auto callback = [this, weak = std::weak_ptr<ClientSession>(session)](int fd, std::uint32_t events) {
+        auto locked = weak.lock();
+        if (!locked) {
+            loop_.remove(fd);
+            return;
+        }
+        on_client_event(locked, events);
+    };
+    loop_.add(client_fd, EventLoop::kEventReadable, callback);
+    return true;
+}
+#endif
+
 void RelayServer::on_client_event(const std::shared_ptr<ClientSession>& session, std::uint32_t events) {
     if (events & EventLoop::kEventError) {
         close_session(session);
